@@ -211,6 +211,30 @@ def _inputs(net, case, res, bb):
             norm = lambda S: {frozenset(tuple((k, int(v)) for k, v in st) for st in a) for a in S}  # noqa: E731
             if norm(aF) != norm(aX):
                 res.v("input-attractors-differ", f"{len(aF)} attractors below the valuation node vs {len(aX)} in the fixed network", ctx=ctx)
+        # source-SCC expansion treats every input valuation separately: its minimal trap spaces and attractors must
+        # be the union over the valuations of those of the fixed networks (duplicates are C01's business)
+        if not big:
+            sdS = bb.make_sd(net)
+            if W(lambda: sdS.expand_scc()) is True:
+                gotm = {conv(sdS.node_data(i)["space"]) for i in sdS.minimal_trap_spaces()}
+                gota = set()
+                for ss in W(lambda: sdS.expanded_attractor_sets(), nodes=len(sdS)).values():
+                    for vs in ss:
+                        gota.add(frozenset(tuple(sorted((k, int(v)) for k, v in m.to_named_dict().items())) for m in vs.items()))
+                expm, expa = set(), set()
+                for vals in itertools.product([0, 1], repeat=len(srcs)):
+                    fx = bb.make_sd(gen.fix_vars(net, dict(zip(srcs, vals))))
+                    W(lambda: fx.expand_bfs())
+                    for i in fx.minimal_trap_spaces():
+                        expm.add(conv(fx.node_data(i)["space"]))
+                    for ss in W(lambda: fx.expanded_attractor_sets(), nodes=len(fx)).values():
+                        for vs in ss:
+                            expa.add(frozenset(tuple(sorted((k, int(v)) for k, v in m.to_named_dict().items())) for m in vs.items()))
+                res.c("scc_input_unions_compared")
+                if gotm != expm:
+                    res.v("scc-inputs-minimal-trap-spaces", f"expand_scc(): {len(gotm)} minimal trap spaces, the fixed-input networks have {len(expm)} in total (missing {len(expm - gotm)}, spurious {len(gotm - expm)})", ctx={"rules": rules})
+                if gota != expa:
+                    res.v("scc-inputs-attractors", f"expand_scc(): {len(gota)} attractors, the fixed-input networks have {len(expa)} in total (missing {len(expa - gota)}, spurious {len(gota - expa)})", ctx={"rules": rules})
         res.nontrivial = nt
     except bb.Aborted as e:
         res.inconclusive = f"aborted: {e}"
